@@ -58,3 +58,27 @@ class ContractSampling(Bounded):
         from .contract import REGISTRY
         c = REGISTRY[rec["contract"]]
         return c.concrete_run(c.cases()[rec["case_index"]], rec["inputs"])
+
+
+class LeanCrossCheck(Bounded):
+    """Thorough tier only: Lean 4 + Mathlib re-checks the generic induction principles (lemmas/Induction.lean) that the z3 lemmas take for granted.
+    A cross-check of the trusted base, not a deciding step: a failure is a CHECKER failure (exit 3), never a violation."""
+    name = "lean-cross-check-of-induction-principles"
+    bound = ("thorough tier: `lean lemmas/Induction.lean` (Lean 4.33 + Mathlib): invariant induction over reachable states and over operation lists, "
+             "permutation invariance of sums, additivity over merge trees, suffix sums of a reversed list; quick tier: skipped")
+
+    def run(self, tier, seed):
+        import shutil
+        import subprocess
+        from pathlib import Path
+        if tier != "thorough":
+            return dict(evaluations=0, distinct=0, violations=[], samples=[dict(note="skipped in the quick tier")])
+        f = Path(__file__).resolve().parent.parent / "lemmas" / "Induction.lean"
+        if not shutil.which("lean"):
+            raise RuntimeError("lean is not on PATH")
+        p = subprocess.run(["lean", str(f)], capture_output=True, text=True, timeout=1500, cwd="/opt/veriftools/mathlib4")
+        out = (p.stdout or "") + (p.stderr or "")
+        if p.returncode != 0 or "error" in out or "sorry" in out:
+            raise RuntimeError(f"Lean rejected lemmas/Induction.lean (exit {p.returncode}): {out[-1500:]}")
+        n = f.read_text().count("\ntheorem ")
+        return dict(evaluations=n, distinct=n, violations=[], samples=[dict(note=f"lean accepted {n} theorems")])
